@@ -781,6 +781,123 @@ fn mk_mgr_script(n: usize, abs_ops: &[String], spell_bits: u64) -> Script {
     Script { n, stmts, modelled: true, tag: String::new(), setup: vec![] }
 }
 
+/// near-tree stress (in the spirit of seeded change C28-a): exception children nested inside one
+/// another's forest subtrees (a backbone path carries several of them), exception parents that
+/// hang below other exception children (multi-hop chains through `via_exception`), and shared
+/// exception parents (the threaded `seen` list prunes)
+fn gen_nested_exceptions(rng: &mut Rng, n: usize) -> Vec<(u32, u32)> {
+    let k = (n / 3).max(2); // backbone 0 <- 1 <- ... <- k
+    let mut tree: Vec<(u32, u32)> = vec![];
+    for j in 1..=k.min(n - 1) {
+        tree.push((j as u32, (j - 1) as u32));
+    }
+    for i in (k + 1)..n {
+        tree.push((i as u32, rng.usize(i) as u32));
+    }
+    let mut have: BTreeSet<(u32, u32)> = tree.iter().cloned().collect();
+    let mut extra: Vec<(u32, u32)> = vec![];
+    let m = 2 + rng.usize(n / 3 + 1);
+    let mut shared: Vec<u32> = vec![];
+    for t in 0..m {
+        // half of the exception children sit on the backbone (nested subtrees)
+        let c = if t % 2 == 0 { 1 + rng.usize(k.min(n - 1)) } else { 1 + rng.usize(n - 1) };
+        let np = 1 + rng.usize(2);
+        for _ in 0..np {
+            let p = if !shared.is_empty() && rng.chance(1, 3) {
+                *rng.pick(&shared) as usize
+            } else {
+                rng.usize(c)
+            };
+            if p < c && have.insert((c as u32, p as u32)) {
+                extra.push((c as u32, p as u32));
+                shared.push(p as u32);
+            }
+        }
+    }
+    let mut es = tree;
+    if rng.chance(1, 2) {
+        es.extend(extra);
+    } else {
+        // interleave: which parent is "first" (the spanning-forest parent) changes
+        for e in extra {
+            let at = rng.usize(es.len() + 1);
+            es.insert(at, e);
+        }
+    }
+    es
+}
+
+/// REBUILD stress (in the spirit of seeded change C28-b): member- and count-preserving rewires
+/// (re-parenting, parent swaps) between rebuilds, with measure writes on the nodes that move
+fn gen_mgr_rewire(rng: &mut Rng) -> Script {
+    let n = 5 + rng.usize(6);
+    let mut ops: Vec<String> = vec![];
+    let mut parent: Vec<usize> = vec![0; n];
+    for c in 1..n {
+        let p = rng.usize(c);
+        parent[c] = p;
+        ops.push(format!("e+{}-{}:0", c, p));
+    }
+    for v in 0..n {
+        ops.push(format!("s{}={}", v, rng.range(0, 9)));
+    }
+    ops.push("c0:0".into());
+    ops.push(format!("qS:0:1:{}", rng.usize(n)));
+    let rounds = 2 + rng.usize(4);
+    for _ in 0..rounds {
+        let mut touched: Vec<usize> = vec![];
+        if rng.chance(1, 3) && n >= 5 {
+            // swap the parents of two nodes (keeps members and edge count)
+            let c1 = 2 + rng.usize(n - 2);
+            let c2 = 2 + rng.usize(n - 2);
+            let (p1, p2) = (parent[c1], parent[c2]);
+            if c1 != c2 && p1 != p2 && p2 < c1 && p1 < c2 {
+                ops.push(format!("s{}={}", c1, rng.range(-3, 15)));
+                ops.push(format!("e-{}-{}:0", c1, p1));
+                ops.push(format!("e-{}-{}:0", c2, p2));
+                ops.push(format!("e+{}-{}:0", c1, p2));
+                ops.push(format!("e+{}-{}:0", c2, p1));
+                parent[c1] = p2;
+                parent[c2] = p1;
+                touched.extend([c1, c2, p1, p2]);
+            }
+        }
+        if touched.is_empty() {
+            let c = 2 + rng.usize(n - 2);
+            let p = parent[c];
+            let mut q = rng.usize(c);
+            if q == p {
+                q = (q + 1) % c;
+            }
+            if q != p {
+                ops.push(format!("s{}={}", c, rng.range(-3, 15)));
+                ops.push(format!("e-{}-{}:0", c, p));
+                ops.push(format!("e+{}-{}:0", c, q));
+                parent[c] = q;
+                touched.extend([c, p, q]);
+            }
+        }
+        if rng.chance(1, 2) {
+            // before the rebuild the plan must be the expansion
+            if let Some(t) = touched.first() {
+                ops.push(format!("qS:0:1:{}", parent[*t]));
+            }
+        }
+        if rng.chance(1, 3) {
+            if let Some(t) = touched.first() {
+                ops.push(format!("s{}={}", t, rng.range(-3, 15)));
+            }
+        }
+        ops.push("b".into());
+        touched.push(0);
+        for t in touched {
+            let kind = *rng.pick(&["S", "D", "C", "X", "N"]);
+            ops.push(format!("q{}:0:1:{}", kind, t));
+        }
+    }
+    mk_mgr_script(n, &ops, rng.next_u64())
+}
+
 fn gen_mgr(rng: &mut Rng) -> Script {
     let n = 3 + rng.usize(7);
     let mut ops: Vec<String> = vec![];
@@ -1162,9 +1279,39 @@ fn main() {
             };
             apis.push(mk_case(&mut rng, n, es, "auto", family, 6, 24));
         }
+        // nested exception children / multi-hop exception chains, forced near-tree (+ auto, chain)
+        for _ in 0..40 * scale {
+            let n = 8 + rng.usize(40);
+            let es = gen_nested_exceptions(&mut rng, n);
+            let edges = relabel(n, &es);
+            let meas = rand_meas(&mut rng, n);
+            let steps = rand_steps(&mut rng, n, 3);
+            let (ys, pairs) = if n <= 20 {
+                (None, None)
+            } else {
+                let ys: Vec<u32> = (0..10).map(|_| rng.usize(n) as u32).collect();
+                let pairs: Vec<(u32, u32)> = (0..160).map(|_| (rng.usize(n) as u32, rng.usize(n) as u32)).collect();
+                (Some(ys), Some(pairs))
+            };
+            for enc in ["near", "auto", "chain"] {
+                apis.push(ApiCase {
+                    n,
+                    edges: edges.clone(),
+                    enc: enc.to_string(),
+                    meas: meas.clone(),
+                    steps: steps.clone(),
+                    ys: ys.clone(),
+                    pairs: pairs.clone(),
+                    family: "nested-exceptions",
+                });
+            }
+        }
         // 4. Cypher histories
         for _ in 0..(if thorough { 6000 } else { 700 }) {
             scripts.push(gen_mgr(&mut rng));
+        }
+        for _ in 0..(if thorough { 1500 } else { 200 }) {
+            scripts.push(gen_mgr_rewire(&mut rng));
         }
     }
 
